@@ -342,7 +342,11 @@ class Assembler:
         for ch in imp.children:
             if ch.kind not in ('fn', 'const', 'type'):
                 continue
-            lines = ['  novis'] + per.get((ch.kind, ch.name), [])
+            if any(l.strip() == 'skip' for l in per.get((ch.kind, ch.name), [])):
+                self.report.setdefault('skipped_items', []).append(f'{rel.strip()} :: {ipath.strip()} :: {ch.kind} {ch.name}')
+                continue
+            is_trait_impl = ' for ' in imp.name
+            lines = (['  novis'] if is_trait_impl else []) + per.get((ch.kind, ch.name), [])
             if ch.kind == 'const' and not per.get((ch.kind, ch.name)):
                 self.out.append(('    #[verifier::external_body]', ('tpl', tplpos[0], tplpos[1])))
             self.extract(f'{rel.strip()} :: {ipath.strip()} :: {ch.kind} {ch.name}', lines, tplpos)
